@@ -2,4 +2,6 @@
 # evalallrefac.sh [N] : run every stored behaviour-preserving change against every check, N at a time.
 cd "$(dirname "$(readlink -f "$0")")/.."
 N=${1:-5}
-ls refactorings | grep '^C' | xargs -P "$N" -I{} tools/evalrefac.sh {} refactorings/{}/patch.diff
+ls refactorings | grep '^C' | xargs -P "$N" -I{} tools/evalrefac.sh {} refactorings/{}/patch.diff | tee /tmp/evalallrefac.$$.log
+grep '^REFAC ' /tmp/evalallrefac.$$.log | sed 's/ files=.*//' | sort > refactorings/RESULTS.txt; rm -f /tmp/evalallrefac.$$.log
+echo "$(grep -c . refactorings/RESULTS.txt) changes, $(grep -c 'alarms=\[\]' refactorings/RESULTS.txt) silent"
